@@ -132,6 +132,10 @@ class FnStub:
         self.inputs.append(p)
     append_parameter._pyvc_native = True
 
+    def add_nested_function(self, fun):
+        self.nested_functions[fun.name] = fun
+    add_nested_function._pyvc_native = True
+
 
 class AbstractStmt:
     """A statement of the block whose translation is abstracted: it (re)defines `defs`."""
